@@ -13,6 +13,7 @@ R03.4 call_action: pops productions[prod_num].len (non-skip) children, calls the
 R03.5 table construction cannot be reached with a start symbol that occurs on a right-hand side (C12 R12.1, which is
       evaluated by check C12; here only that calculate_lalr1_parse_table's callers pass augmented grammars is
       recorded as an assumption).
+R03.6 on Accept the final reduction uses the production whose left-hand side is the start symbol (searched, not assumed first).
 The correctness of the table built by the external crate lalry is NOT decided.
 """
 from .. import cfg
@@ -101,6 +102,40 @@ def check(ctx):
     ctx.check(len(acc_calls) == 1, "R03.1", "parse_into|accept-calls-start-action-once",
               "the Accept arm calls call_action exactly once (start production)",
               "the Accept arm calls call_action %d times" % len(acc_calls), where(pi))
+
+    # R03.6 (added after seed C03-b) the final reduction is the start symbol's production: lalry replaces "reduce the start
+    # production at end of input" by Accept, so the driver performs that reduction itself - with the production whose left-hand
+    # side is the start symbol (augmentation does not always put it first: an unaugmented grammar keeps its file order)
+    if len(acc_calls) == 1:
+        c = acc_calls[0]
+        t = operand_term(pi, c.args[1]) if len(c.args) > 1 else ("unknown",)
+        hops = 0
+        while t[0] == "proj" and hops < 4:
+            t = t[1]
+            hops += 1
+        okp = False
+        detail = term_str(pi, t)[:80] if t[0] != "const" else "the constant %s" % (t[2],)
+        if t[0] == "call" and (t[1].path or "").split("::")[-1] in ("position", "rposition", "find"):
+            from .common import closure_of_arg_any
+            cl = closure_of_arg_any(facts, pi, t[1])
+            reads_lhs = reads_start = False
+            if cl is not None:
+                from .common import all_places
+                for bi, kind, pl, line in all_places(cl):
+                    names = [e[2] for e in pl[1:] if isinstance(e, list) and e[0] == "f"]
+                    if "lhs" in names:
+                        reads_lhs = True
+                    if any("start_symbol_index" in n for n in names):
+                        reads_start = True
+            src = operand_term(pi, t[1].args[0], through_calls=True) if t[1].args else ("unknown",)
+            over_productions = src[0] == "path" and "productions" in src[2]
+            okp = reads_lhs and reads_start and over_productions
+            detail = "position over %s, closure reads lhs=%s start_symbol_index=%s" % (term_str(pi, src)[:40], reads_lhs, reads_start)
+        ctx.check(okp, "R03.6", "parse_into|accept-reduces-start-production",
+                  "on Accept the driver reduces with the production found by searching self.productions for lhs == start_symbol_index",
+                  "on Accept the driver reduces with %s instead of the production whose left-hand side is the start symbol: for "
+                  "a grammar whose single start production is not the first one the derivation ends with a wrong reduction and "
+                  "the tree is not rooted at the start symbol" % detail, where(pi, c.line))
 
     # ---------------------------------------------------------------- R03.2
     ctx.check(not ok_blocks(hpe), "R03.2", "handle_parse_error|never-ok",
